@@ -236,6 +236,15 @@ func genParts(t *rapid.T) c14PartsArgs {
 		a.Coef = append(make([]byte, lz-2), a.Coef...)
 	}
 	nd := ref.DecLen(c)
+	if ir(t, 0, 11, "topBand") == 0 {
+		// exponent above 6111 absorbed by a short coefficient that lands next to the largest one
+		lead, e := topBandLead(t, 35)
+		a.Coef, a.Exp = lead.Bytes(), int32(e)
+		if ir(t, 0, 3, "padded") == 0 {
+			a.Coef = append(make([]byte, ir(t, 1, 30, "pad")), a.Coef...)
+		}
+		return a
+	}
 	switch ir(t, 0, 7, "expKind") {
 	case 0:
 		a.Exp = int32(genExp(t))
